@@ -968,3 +968,111 @@ Proof.
     + apply Forall_rev. exact Hs.
     + apply Forall_rev. exact Ht.
 Qed.
+
+(* ================= the factory ================= *)
+Lemma cid_bs_supported c : supported (cid_bs c).
+Proof. destruct c; [right | right | right | left | left]; reflexivity. Qed.
+
+Section FactoryProofs.
+  Variable BC : cid -> list N -> list N -> list N.
+  Variable KS : list N -> list N -> nat -> N.
+
+  Lemma irun_block c k iv ops : forall cr outs cr',
+    crun (cid_bs c) (BC c k) iv cr ops = Some (outs, cr') ->
+    irun BC KS (IBlock c k iv cr) ops = Some (outs, IBlock c k iv cr').
+  Proof.
+    induction ops as [|o r IH]; intros cr outs cr' H; cbn [crun irun istep] in *.
+    - injection H as <- <-. reflexivity.
+    - destruct (cstep (cid_bs c) (BC c k) iv cr o) as [[out cr1]|]; [|discriminate].
+      destruct (crun (cid_bs c) (BC c k) iv cr1 r) as [[outs1 cr2]|] eqn:Hr; [|discriminate].
+      injection H as <- <-. rewrite (IH cr1 outs1 cr2 Hr). reflexivity.
+  Qed.
+
+  Lemma used_key_prefix klen key k :
+    used_key klen key = Some k ->
+    k = firstn (length k) key /\ length k <= length key /\
+    match klen with Some n => length k = n | None => k = key end.
+  Proof.
+    destruct klen as [n|]; cbn [used_key].
+    - destruct (n <=? length key) eqn:Hn; [|discriminate]. intros [= <-].
+      apply Nat.leb_le in Hn. rewrite firstn_length, Nat.min_l by exact Hn. repeat split; lia.
+    - destruct ((length key =? 16) || (length key =? 24) || (length key =? 32)); [|discriminate].
+      intros [= <-]. rewrite firstn_all. repeat split; lia.
+  Qed.
+
+  Lemma factory_block_is_cfb name key iv c klen k :
+    factory_kind name = FBlock c klen -> used_key klen key = Some k -> cid_bs c <= length iv ->
+    exists i, new_crypt name key iv = Some i /\
+      forall ops, exists i',
+        irun BC KS i ops = Some (map (cfb_op (cid_bs c) (BC c k) iv) ops, i').
+  Proof.
+    intros Hk Hu Hiv. unfold new_crypt. rewrite Hk, Hu. eexists. split; [reflexivity|].
+    intros ops.
+    destruct (crun_spec (cid_bs c) (BC c k) iv ops
+                (mkcr (repeat 0%N (cid_bs c)) (repeat 0%N (2 * cid_bs c)))
+                (cid_bs_supported c) Hiv) as (cr' & Hrun & _).
+    { split; cbn [encbuf decbuf]; rewrite repeat_length; lia. }
+    eexists. apply irun_block. exact Hrun.
+  Qed.
+
+  (* only key[:n] and iv[:bs] matter *)
+  Lemma factory_prefix_only name c klen k key1 iv1 key2 iv2 i1 i2 ops :
+    factory_kind name = FBlock c klen ->
+    used_key klen key1 = Some k -> used_key klen key2 = Some k ->
+    cid_bs c <= length iv1 -> cid_bs c <= length iv2 ->
+    firstn (cid_bs c) iv1 = firstn (cid_bs c) iv2 ->
+    new_crypt name key1 iv1 = Some i1 -> new_crypt name key2 iv2 = Some i2 ->
+    option_map fst (irun BC KS i1 ops) = option_map fst (irun BC KS i2 ops).
+  Proof.
+    intros Hk Hu1 Hu2 Hl1 Hl2 Hiv H1 H2.
+    destruct (factory_block_is_cfb name key1 iv1 c klen k Hk Hu1 Hl1) as (j1 & N1 & R1).
+    destruct (factory_block_is_cfb name key2 iv2 c klen k Hk Hu2 Hl2) as (j2 & N2 & R2).
+    rewrite H1 in N1. injection N1 as <-. rewrite H2 in N2. injection N2 as <-.
+    destruct (R1 ops) as (i1' & E1). destruct (R2 ops) as (i2' & E2). rewrite E1, E2. cbn [option_map fst].
+    f_equal. apply map_ext. intros [m|m]; cbn [cfb_op]; rewrite Hiv; reflexivity.
+  Qed.
+
+  (* short key: the factory panics; short iv: the first call panics *)
+  Lemma factory_rejects name key iv c klen :
+    factory_kind name = FBlock c klen ->
+    (used_key klen key = None -> new_crypt name key iv = None) /\
+    (forall k o r, used_key klen key = Some k -> length iv < cid_bs c ->
+       exists i, new_crypt name key iv = Some i /\ irun BC KS i (o :: r) = None).
+  Proof.
+    intros Hk. unfold new_crypt. rewrite Hk. split.
+    - intros ->. reflexivity.
+    - intros k o r -> Hiv. eexists. split; [reflexivity|].
+      cbn [irun istep]. apply Nat.ltb_lt in Hiv.
+      destruct c, o; cbn [cid_bs] in *; cbn [cstep encrypt decrypt];
+        unfold encrypt8, encrypt16, decrypt8, decrypt16, encrypt_bs, decrypt_bs; cbn [data buf];
+        rewrite Hiv; reflexivity.
+  Qed.
+
+  Lemma factory_stream_none name key iv :
+    (factory_kind name = FStream -> 32 <= length key ->
+       exists nonce, length nonce = 8 /\ firstn (Nat.min 8 (length iv)) nonce = firstn 8 iv /\
+         new_crypt name key iv = Some (IStream (firstn 32 key) nonce) /\
+         forall ops, irun BC KS (IStream (firstn 32 key) nonce) ops =
+                     Some (map (fun o => stream_encrypt (KS (firstn 32 key) nonce) (op_msg o)) ops,
+                           IStream (firstn 32 key) nonce)) /\
+    (factory_kind name = FNone ->
+       new_crypt name key iv = Some INone /\
+       forall ops, irun BC KS INone ops = Some (map op_msg ops, INone)).
+  Proof.
+    split.
+    - intros Hk Hlen. exists (firstn 8 (iv ++ repeat 0%N 8)).
+      split; [rewrite firstn_length, app_length, repeat_length; lia|].
+      split.
+      { rewrite firstn_firstn. replace (Nat.min (Nat.min 8 (length iv)) 8) with (Nat.min 8 (length iv)) by lia.
+        rewrite firstn_app.
+        replace (Nat.min 8 (length iv) - length iv) with 0 by lia. rewrite firstn_O, app_nil_r.
+        destruct (Nat.le_gt_cases 8 (length iv)).
+        - rewrite Nat.min_l by lia. reflexivity.
+        - rewrite Nat.min_r by lia. rewrite firstn_all. symmetry. apply firstn_all2. lia. }
+      split.
+      { unfold new_crypt. rewrite Hk. replace (32 <=? length key) with true by (symmetry; apply Nat.leb_le; exact Hlen). reflexivity. }
+      induction ops as [|o r IH]; cbn [irun istep map]; [reflexivity|]. rewrite IH. reflexivity.
+    - intros Hk. split; [unfold new_crypt; rewrite Hk; reflexivity|].
+      induction ops as [|o r IH]; cbn [irun istep map]; [reflexivity|]. rewrite IH. reflexivity.
+  Qed.
+End FactoryProofs.
